@@ -160,6 +160,25 @@ func (s *sys) apply(ev string) applied {
 		k, _ := strconv.Atoi(parts[1])
 		s.st.f.freezeAt = s.st.f.writes + k
 		a.result = "armed"
+	case "Settle":
+		// The environment answers whatever the engine is waiting for (strategy calls, finalizations) until nothing is pending.
+		for i := 0; i < 12 && s.eng != nil; i++ {
+			if s.eng.pending != nil {
+				s.eng.release("")
+			} else if len(s.eng.pendingFin) > 0 {
+				s.eng.finalize()
+			} else {
+				break
+			}
+			synctest.Wait()
+			s.drain(false)
+		}
+		a.result = "settled"
+	case "Recrash":
+		// Arms a second crash: it takes effect while the interrupted event is delivered again after the restart.
+		k, _ := strconv.Atoi(parts[1])
+		s.recrash = k
+		a.result = "armed-second"
 	default:
 		panic("unknown event " + ev)
 	}
@@ -174,6 +193,7 @@ func (s *sys) restart() string {
 		r := s.eng.restart()
 		s.rhr = s.eng.rhr
 		s.restarts++
+		s.armRecrash()
 		return r
 	}
 	s.stop()
@@ -181,10 +201,19 @@ func (s *sys) restart() string {
 	s.st.f.freezeAt = -1
 	s.restarts++
 	s.start()
+	s.armRecrash()
 	if s.startErr != "" {
 		return "restart-failed:" + s.startErr
 	}
 	return "restarted"
+}
+
+// armRecrash arms the second crash of a double-crash history: it hits while the interrupted event is re-delivered.
+func (s *sys) armRecrash() {
+	if s.recrash >= 0 {
+		s.st.f.freezeAt = s.st.f.writes + s.recrash
+		s.recrash = -1
+	}
 }
 
 func flipBit(b []byte) []byte {
